@@ -400,3 +400,37 @@ F("D27g", "C13", RU2, "    return Igamc(len(pvalues), s)", "    return Igamc(len
 T("D28", "C13", TS, "      if pval < self.p_value_fail:\n        self.state[name] = State.FAILED\n      else:\n        repeat_prob = util.CombinedPValue([self.p_value_repeat] * len(pvals))\n        if repeat_prob < pval:\n          self.state[name] = State.PASSED\n        else:\n          self.state[name] = State.UNDECIDED\n          undecided += 1",
   "      if not (pval < self.p_value_fail):\n        repeat_prob = util.CombinedPValue([self.p_value_repeat] * len(pvals))\n        if pval > repeat_prob:\n          self.state[name] = State.PASSED\n        else:\n          self.state[name] = State.UNDECIDED\n          undecided += 1\n      else:\n        self.state[name] = State.FAILED",
   "branches flipped, comparison mirrored")
+
+# ---------------------------------------------------------------------------------- C14
+BM = L + "randomness_tests/berlekamp_massey.py"
+BC = L + "randomness_tests/cc_util/berlekamp_massey.cc"
+BP = L + "randomness_tests/cc_util/pybind/berlekamp_massey.cc"
+F("G01", "C14", BM, "    return int(2 * 4**(m - 1))", "    return int(4**(m - 1))", "R-C14-CLOSED", "count for small m halved")
+F("G02", "C14", BM, "    return int(4**(n - m))", "    return int(2 * 4**(n - m))", "R-C14-CLOSED", "count for large m doubled")
+F("G03", "C14", BM, "  elif m <= n // 2:\n    # Result is always an int since m >= 1", "  elif m <= n // 2 + 1:\n    # Result is always an int since m >= 1", "R-C14-CLOSED", "split point moved up (m = n//2 + 1 uses the wrong branch)")
+T("G03b", "C14", BM, "  elif m <= n // 2:\n    # Result is always an int since m >= 1", "  elif 2 * m <= n:\n    # Result is always an int since m >= 1", "split written as 2m <= n")
+F("G04", "C14", BM, "  if m < 0 or n <= 0 or m > n:\n    return 0", "  if m < 0 or n <= 0 or m >= n:\n    return 0", "R-C14-CLOSED", "m = n reported impossible")
+F("G05", "C14", BM, "    return 2 * m - n - 1", "    return 2 * m - n", "R-C14-CLOSED", "log-probability off by one")
+F("G06", "C14", BM, "  if m == 0:\n    return -n", "  if m == 0:\n    return -n + 1", "R-C14-CLOSED", "log-probability of the zero sequence")
+F("G07", "C14", BM, "  ba = s.to_bytes(size, \"little\")", "  ba = s.to_bytes(size, \"big\")", "R-C14-PACK", "python side big-endian")
+F("G08", "C14", BM, "  return berlekamp_massey.LfsrLength(ba, length)", "  return berlekamp_massey.LfsrLength(ba, size)", "R-C14-PACK", "length passed in bytes")
+F("G09", "C14", BC, "    s[i / 8] ^= byte << (8 * (i & 7));", "    s[i / 8] ^= byte << (8 * (7 - (i & 7)));", "R-C14-PACK", "C++ side big-endian words")
+F("G10", "C14", BC, "  if (n < 0 || (size_t)n > 8 * seq.size()) {", "  if (n < 0) {", "R-C14-PACK", "upper range check removed")
+F("G11", "C14", BP, "m.def(\"LfsrLength\", LfsrLengthStr);", "m.def(\"LfsrLen\", LfsrLengthStr);", "R-C14-PACK", "exported name changed")
+T("G12", "C14", BM, "    return int(2 * 4**(m - 1))", "    return int(2 ** (2 * m - 1))", "closed form written as 2^(2m-1)")
+T("G13", "C14", BM, "  size = (length + 7) // 8\n  if not 0 <= size < 2**31:", "  size = (length + 7) // 8\n  if size < 0 or size >= 2**31:", "range guard rewritten")
+
+# ---------------------------------------------------------------------------------- C17
+T("A28", "C17", RS, "      msb_1 = 2 ** (psize - 1)\n      msb_11 = msb_1 | 2 ** (psize - 2)\n      factors = None\n      for p_0 in list_unseeded_rands:",
+  "      msb_1 = 2 ** (psize - 1)\n      msb_11 = msb_1 | 2 ** (psize - 2)\n      for p_0 in list_unseeded_rands:", "CheckUnseededRand: `factors = None` removed - the inner loop (non-empty set) always assigns it before it is read")
+T("A28b", "C17", RS, "    any_weak = False\n    for key in artifacts:\n      n = gmpy.mpz(util.Bytes2Int(key.rsa_info.n))\n      psize = (n.bit_length() + 1) // 2",
+  "    any_weak = False\n    factors = None\n    for key in artifacts:\n      n = gmpy.mpz(util.Bytes2Int(key.rsa_info.n))\n      psize = (n.bit_length() + 1) // 2", "extra initialisation before the loop (still reset per key)")
+F("A28c", "C17", RS, "      max_dsize = n.bit_length() // 8\n      # bit size of the words that are swapped", "      max_dsize = max(n.bit_length() // 8, max_dsize if 'max_dsize' in dir() else 0)\n      # bit size of the words that are swapped", "R-C17-INDIVIDUAL", "permuted patterns: size cut-off grows with the largest key seen so far in the batch")
+F("D20", "C17", RS, "      n = gmpy.mpz(util.Bytes2Int(key.rsa_info.n))\n      weak = gmpy.bit_length(n) < 2048", "      n = gmpy.mpz(util.Bytes2Int(key.rsa_info.n))\n      self._last = n\n      weak = gmpy.bit_length(n) < 2048", "R-C17-STATELESS", "check instance remembers the last modulus")
+F("D20b", "C17", EC, "    scalars = [x % self.n for x in scalars]\n", "    scalars = [x % self.n for x in scalars]\n    self.n = self.n\n", "R-C17-STATELESS", "curve object mutated in a search routine")
+F("D20c", "C17", RS, "    any_weak = False\n    pattern_sizes = self._pattern_sizes\n    if pattern_sizes is None:", "    any_weak = False\n    pattern_sizes = self._pattern_sizes\n    self._pattern_sizes = pattern_sizes\n    if pattern_sizes is None:", "R-C17-STATELESS", "CheckBitPatterns writes its configuration")
+F("D20d", "C17", EC, "        if multiplier not in self._cache:\n          self._cache[multiplier] = self.Multiply(self.g, multiplier)", "        if multiplier not in self._cache:\n          self._cache[multiplier] = self.Multiply(self.g, s)", "R-C17-CACHE", "memo filled with the multiple of another scalar")
+F("D20e", "C17", L + "ecdsa_sig_checks.py", "      pks = _MapIssuerSigIndexes(sigs)\n      guesses = set()\n      for _, idxs in pks.items():\n        # Exclude duplicate signatures from the actual processing\n        unique_vals = list({\n            ec_util.ECDSAValues(sigs[idx].ecdsa_sig_info, curve) for idx in idxs\n        })\n        a, b",
+  "      pks = _MapIssuerSigIndexes(sigs)\n      guesses = set()\n      ec_util.CURVE_FACTORY[curve_id] = curve\n      for _, idxs in pks.items():\n        # Exclude duplicate signatures from the actual processing\n        unique_vals = list({\n            ec_util.ECDSAValues(sigs[idx].ecdsa_sig_info, curve) for idx in idxs\n        })\n        a, b",
+  "R-C17-STATELESS", "shared curve table written at run time")
+F("D20f", "C17", RS, "      max_pattern_size = n.bit_length() // 8\n      for pattern_size in pattern_sizes:", "      max_pattern_size = n.bit_length() // 8\n      pattern_sizes = pattern_sizes[1:] + pattern_sizes[:1]\n      for pattern_size in pattern_sizes:", "R-C17-INDIVIDUAL", "pattern list rotated per key: order depends on the position in the batch")
